@@ -19,5 +19,16 @@ while read -r name prop; do
   if [ -n "$v" ]; then echo "$name: caught by $prop ${v#obligation=}"; elif [ -n "$e" ]; then echo "$name: caught by $prop ($e)"; else echo "$name: MISSED by $prop"; bad=1; fi
   git -C $WT checkout -q .
 done < $D/LIST.txt
-[ $bad -eq 0 ] && echo "selftest: all cases caught" || echo "selftest: FAILED"
+# Must-pass corpus: behaviour-preserving edits (an extra log line, a renamed local, a rewritten condition, a getter
+# instead of a field read, reordered independent statements) on which the named check must stay silent.
+H=/verif/selftest/harmless
+while read -r name prop; do
+  [ -z "$name" ] && continue
+  if ! git -C $WT apply $H/$name.diff 2>/dev/null; then echo "$name: PATCH DOES NOT APPLY (regenerate the case)"; bad=1; continue; fi
+  if ! (cd $WT && go build ./... >/dev/null 2>&1); then echo "$name: does not compile"; bad=1; git -C $WT checkout -q .; continue; fi
+  r=$(GVC_OUT=$OUT /verif/bin/gvc check -prop $prop -repo $WT 2>&1)
+  if echo "$r" | grep -q "^VIOLATION\|CHECK-ERROR"; then echo "$name: FALSE ALARM from $prop: $(echo "$r" | grep "^VIOLATION\|CHECK-ERROR" | head -1 | cut -c1-200)"; bad=1; else echo "$name: $prop stays silent"; fi
+  git -C $WT checkout -q .
+done < $H/LIST.txt
+[ $bad -eq 0 ] && echo "selftest: all cases as expected" || echo "selftest: FAILED"
 exit $bad
